@@ -263,6 +263,22 @@ def rule_c(ctx: Ctx) -> None:
     ys = [n for n in gi.stmt_nodes() if n.kind == 'stmt' and any(isinstance(x, ast.Yield) for x in ast.walk(n.ast))]
     ok = bool(ys) and all(any('.abstract' in t and t.startswith('not ') and lab == 'T' for t, lab in guards(ctx, it, y)) for y in ys)
     ctx.ob(rule, 'iter_substitutes never yields an abstract member', it.loc(), ok, '', key='iter_substitutes|abstract')
+    # ... but the closure is taken through abstract members: the recursion is not filtered by abstractness
+    for q in (f'{ELEM}.iter_substitutes', 'xmlschema.validators.elements.Xsd11Element.iter_substitutes'):
+        try:
+            fi = ctx.idx.func(q)
+        except AnalysisError:
+            continue
+        gq = cfg_of(ctx, fi)
+        rec = [n for n in gq.nodes if n.kind == 'for' and text(n.ast.iter).endswith('.iter_substitutes()')]
+        rec += [n for n in gq.stmt_nodes() if n.kind == 'stmt' and any(isinstance(x, ast.YieldFrom) and text(x.value).endswith('.iter_substitutes()')
+                                                                      for x in ast.walk(n.ast))]
+        if not rec:
+            continue
+        ok = all(not any('.abstract' in t for t, lab in guards(ctx, fi, n)) for n in rec)
+        ctx.ob(rule, f'{q.split(".")[-2]}.iter_substitutes follows the substitution chain through abstract members (only the yield is filtered)',
+               fi.loc(rec[0].ast), ok, '' if ok else 'the recursion runs only for non-abstract members: a concrete member that substitutes an abstract '
+               'intermediate member is no longer accepted in place of the head', key=f'{q}|closure-through-abstract')
     ctx.explain('C07.c: is_blocked reads element block + type block, both fall back to blockDefault; substitution is refused '
                 'under block=substitution / blocked derivation; abstract declarations are refused or delegated.')
 
